@@ -15,7 +15,7 @@ FUNCTIONS = [Telescope.run, Telescope.begin_observation, Observation.is_ready, S
              Buffer.check_buffer_capacity, HotBuffer.has_capacity_for, ColdBuffer.has_capacity_for, Scheduler.allocate_ingest,
              Cluster.provision_ingest_resources]
 META = {
-    'bounds': {'C08.step.machines': 3, 'C08.step.pools': 'each machine available / on ingest / running a task (3^3 by prelude)',
+    'bounds': {'C08.step.machines': 3, 'C08.step.pools': 'each machine available / on ingest / running a task / reserved-idle for a batch workflow (4^3 by prelude)',
                'C08.step.observations': 2, 'C08.step.est': '1..2 at now=1 (two steps run)', 'C08.step.array_demand': '1..2 of total 1..3, 0..1 in use',
                'C08.step.ingest_demand': '1..2, limit 1..3', 'C08.step.data_rate/buffer free/capacity': 'unbounded ints', 'C08.step.duration': '(1, 2)', 'C08.step.quick_focus': 'arrays (demands/total/in-use symbolic) and machines (ingest demands/limit/pools symbolic) in separate shards; thorough: jointly'},
     'outside_bounds': ['more than two observations falling due in one step', 'more than 3 machines'],
@@ -96,7 +96,7 @@ def feasible(u0, ta, mi, a1, a2, g1, g2, r1, r2, d1, d2, hcap, hused, ccap, cuse
 def step(p1: int, p2: int, u0: int, ta: int, mi: int, e1: int, e2: int, a1: int, a2: int, g1: int, g2: int, r1: int, r2: int,
          d1: int, d2: int, hcap: int, hused: int, ccap: int, cused: int, rmax: int) -> bool:
     """
-    pre: 0 <= p2 <= 2 and e1 == 1 and 1 <= e2 <= 2 and p1 == pinned_p1() and d1 == 1 and d2 == 2
+    pre: 0 <= p2 <= 3 and e1 == 1 and 1 <= e2 <= 2 and p1 == pinned_p1() and d1 == 1 and d2 == 2
     pre: focus(u0, ta, mi, a1, a2, g1, g2)
     pre: feasible(u0, ta, mi, a1, a2, g1, g2, r1, r2, d1, d2, hcap, hused, ccap, cused, rmax)
     post: _
@@ -135,6 +135,8 @@ def warmup():
 def shards(tier, prop):
     T = 240 if tier == 'quick' else 1800
     foci = ('arrays', 'machines') if tier == 'quick' else ('all',)
-    out = [{'fn': 'step', 'pin': {'p0': p, 'p1': q, 'focus': f}, 'cond_timeout': T, 'path_timeout': 30} for p in range(3) for q in range(3) for f in foci]
+    out = [{'fn': 'step', 'pin': {'p0': p, 'p1': q, 'focus': f}, 'cond_timeout': T, 'path_timeout': 30} for p in range(4) for q in range(4) for f in foci
+           if not (f == 'arrays' and (p, q) not in ((0, 0), (1, 2), (2, 0), (0, 3))) and not (tier == 'quick' and f == 'machines' and p > q)]
+    # array checks do not read the pools: 4 pool pairs suffice; quick: unordered pool pairs (the third machine's pool is symbolic)
     out.append({'fn': 'step', 'pin': {'p0': 0}, 'cond_timeout': 40, 'twin': True})
     return out
